@@ -1,4 +1,6 @@
 """Builtin paths (constructors, free functions, rewritten macros) for rsym."""
+import os
+
 import z3
 
 import values as V
@@ -426,6 +428,16 @@ class CallsMixin:
             return Vc([], None, t)
         if key in ("HashMap::new", "HashMap::with_capacity", "BTreeMap::new"):
             return Mp([], t)
+        if key in ("HashMap::from", "BTreeMap::from", "HashMap::from_iter", "BTreeMap::from_iter"):
+            src = ip.deref(A()[0])
+            if not isinstance(src, Vc) or not (isinstance(src.n, int) or src.n is None or z3.is_int_value(src.n)):
+                raise Unsupported("%s of a non-literal collection" % key)
+            m = Mp([], t)
+            n = len(src.items) if src.n is None else (src.n if isinstance(src.n, int) else src.n.as_long())
+            for it in src.items[:n]:
+                kv = ip.deref(it)
+                m, _ = self.map_insert(m, ip.deref(kv.items[0]), ip.deref(kv.items[1]))
+            return m
         if key in ("HashSet::new", "HashSet::with_capacity", "BTreeSet::new"):
             return HS([])
         if key == "String::new":
@@ -441,6 +453,18 @@ class CallsMixin:
                 return v
             return ip.deref(v)
         if key in ("Arc::clone", "Rc::clone"):
+            if (getattr(ip, "arc_clone_aliases", False) or os.environ.get("RSYM_ARC_ALIAS")) and env is not None and len(args) == 1:
+                # shared ownership of the SAME object (needed when the Arc wraps a Mutex that is written through a clone)
+                x = args[0]
+                if x.get("_") == "Expr::Reference":
+                    x = x["expr"]
+                v0 = ip.ev(x, env[0], env[1])
+                if isinstance(v0, Rf):
+                    return v0
+                pl = ip.place_of(x, env[0], env[1])
+                if pl is not None:
+                    return Rf(pl)
+                return ip.deref(v0)
             return ip.deref(A()[0])
         if key in ("Default::default",) or (last == "default" and t is not None):
             if t in ("Default", None):
@@ -513,6 +537,11 @@ class CallsMixin:
         if key == "Utc::now":
             w = ip.wall_clock()
             return St("DateTime", {"t": I(w.f["ms"].v, "i64")})
+        if key in ("thread::spawn", "std::thread::spawn") or (last == "spawn" and t == "thread"):
+            # ONE schedule: the thread body runs to completion at spawn time (no interleaving is modelled)
+            f = A()[0]
+            r = ip.call_value(ip.deref(f) if isinstance(f, Rf) else f, [])
+            return St("JoinHandle", {"result": r if r is not None else UNIT})
         if key in ("mem::take", "std::mem::take"):
             r = A()[0]
             if not isinstance(r, Rf):
